@@ -36,9 +36,15 @@ enum CP {
     DropPendingJoin,
     /// the runtime's own task handle is polled again after it has completed (tokio: a panic)
     RepollTaskHandle,
+    /// a task polls the handles of many finished tasks in one go: can the first poll of a
+    /// finished task's handle answer Pending? (tokio: yes, once the polling task has used up its
+    /// cooperative budget; the others: never.) The shim offers it as a choice per handle, so the
+    /// controlled run polls one handle where the real one polls 200.
+    BudgetOnJoin,
 }
 
-const ALL: [CP; 11] = [
+const ALL: [CP; 12] = [
+    CP::BudgetOnJoin,
     CP::Join,
     CP::JoinTwice,
     CP::DropHandle,
@@ -74,6 +80,18 @@ async fn run_cp(cp: CP) -> String {
         }
     };
     match cp {
+        CP::BudgetOnJoin => {
+            let n = if hannibal::verif::installed() { 1 } else { 200 };
+            let mut hs: Vec<_> = (0..n).map(|_| <DefaultSpawner as Spawner<P>>::spawn_actor(async { Ok(P::new(0)) })).collect();
+            sleep(20).await;
+            let mut pending = 0;
+            for h in hs.iter_mut() {
+                if h.join().now_or_never().flatten().is_none() {
+                    pending += 1;
+                }
+            }
+            format!("first-poll-of-a-finished-task-can-be-pending={}", pending > 0)
+        }
         CP::RepollTaskHandle => {
             #[cfg(feature = "rt-tokio")]
             {
@@ -221,7 +239,8 @@ fn virtual_obs(cp: CP) -> Result<(BTreeSet<String>, u64), String> {
             *r.borrow_mut() = Some(s);
         });
     };
-    let cfg = ExecCfg { horizon: 500, ..ExecCfg::default() };
+    let budget = cp == CP::BudgetOnJoin;
+    let cfg = ExecCfg { horizon: 500, coop_is_choice: budget, yield_at_lock: !budget, ..ExecCfg::default() };
     let set = RefCell::new(BTreeSet::new());
     let last = RefCell::new(String::new());
     let mut run = |prefix: &[ChoiceRec]| {
